@@ -5,6 +5,8 @@ import (
 	"math/big"
 	"os"
 	"path/filepath"
+	"runtime"
+	"sync/atomic"
 	"time"
 
 	"github.com/ethereum/go-ethereum/event"
@@ -345,12 +347,19 @@ func (n *Node) FreshView(txs ...pb.Transaction) []*pb.Receipt {
 	return ve.ApplyReadonlyTransactions(txs)
 }
 
+var closedNodes uint64
+
 // Close stops the executor and waits until the ledger stores are closed.
 func (n *Node) Close() {
 	if n.closed {
 		return
 	}
 	n.closed = true
+	// WASM instances hold native (JIT) memory that is only released by finalizers; the Go heap of a case is small,
+	// so the collector rarely runs by itself and a long run exhausts the process's memory mappings
+	if atomic.AddUint64(&closedNodes, 1)%4 == 0 {
+		runtime.GC()
+	}
 	n.sub.Unsubscribe()
 	_ = n.Exec.Stop() // asynchronously closes the ledger (persist goroutine)
 	// wait for the blockfile lock to be released, then make sure the leveldbs are closed
